@@ -15,7 +15,9 @@ RULE = ('Evaluation = one stage/query call made on a real CeiloChunk in some rea
         'per-hit id columns, three messages) unchanged - only when a prerequisite is missing, or when layers exist '
         'and the call is find_groups / metarize(groups); (ii) normal return with every table, id column and '
         'message equal to the canonical snapshot of its level assigned by the transition function (so repeating a '
-        'permitted stage is idempotent). The walk is a breadth-first exploration of the implementation\\u2019s reachable '
+        'permitted stage is idempotent; a find_groups / metarize(groups) that is ACCEPTED while layers exist must '
+        'leave the groups table of the canonical run, i.e. with the ncomp column written by find_layers, since '
+        'anything else discards part of the layering). The walk is a breadth-first exploration of the implementation\\u2019s reachable '
         'state graph over the 11 operations ' + ', '.join(OPS) + ': a deep copy per edge, and two histories that lead '
         'to bit-identical full internal state (data frame incl. index, tables, flags) share their subtree, which is '
         'sound because the code is deterministic; when the exploration closes, ALL call sequences of ANY length '
@@ -111,7 +113,9 @@ def successor(state, op):
         if s is None:
             return 'refuse', state
         if l is not None:
-            return 'either', ('S2', 'G1', l)
+            # accepted although layers exist: nothing of the layering may be lost, so the groups table must
+            # still be the one of the canonical run (ncomp filled in by find_layers), not the pre-layering one
+            return 'either', ('S2', 'G2', l)
         return 'ok', ('S2', 'G1', l)
     if op == 'find_layers':
         if g is None:
@@ -125,7 +129,7 @@ def successor(state, op):
         if g is None:
             return 'refuse', state
         if l is not None:
-            return 'either', (s, 'G1', l)
+            return 'either', (s, 'G2', l)
         return 'ok', (s, 'G1', l)
     if op == "metarize('layers')":
         if l is None:
